@@ -39,8 +39,9 @@ def install_arena_allocator():
 
 ARENA_INSTALLED = install_arena_allocator()
 FAKES = os.path.join(VERIF_ROOT, "fakes")
-REPLAYS = os.path.join(VERIF_ROOT, "replays")
-EVIDENCE = os.path.join(VERIF_ROOT, "evidence")
+# the self-tests redirect these so that runs against mutated scratch copies never touch the real files
+REPLAYS = os.environ.get("VERIF_REPLAY_DIR") or os.path.join(VERIF_ROOT, "replays")
+EVIDENCE = os.environ.get("VERIF_EVIDENCE_DIR") or os.path.join(VERIF_ROOT, "evidence")
 
 _SCRATCH = None
 _SCRATCH_PID = None
